@@ -55,14 +55,15 @@ def compare_stream(spec, sampler, ref):
     if len(raw) > bound:
         raise Violation("does-not-end", f"more than {bound} items")
     got = []
+    tags = im.tags_of(spec)
     sizes = [im.main_size(spec)] + [c["size"] for c in spec["configs"]]
     total = sum(sizes)
     for f, g in raw:
         if not 0 <= g < total:
             raise Violation("index-out-of-range", f"global index {g} outside [0,{total})")
         src, tag, local = im.resolve(sampler, g)
-        if src != tag:
-            raise Violation("resolves-to-wrong-dataset", f"global {g}: concat part {src} holds dataset {tag}")
+        if tag != tags[src]:
+            raise Violation("resolves-to-wrong-dataset", f"global {g}: concat part {src} holds dataset {tag}, expected {tags[src]}")
         got.append((bool(f), src, local))
     exp = ref["stream"]
     if got == exp:
@@ -152,14 +153,16 @@ def check_loader(spec):
     got = []
     for b in itertools.islice(iter(loader), len(exp_batches) + 4):
         got.append(b)
+    tags = im.tags_of(spec)
     for k, b in enumerate(got):
         name, samples = b
         srcs = {s[0] for s in samples}
         if len(srcs) != 1:
             raise Violation("loader-batch-mixes-datasets", str(b))
-        src = srcs.pop()
-        if name != "collator_%d" % src:
-            raise Violation("loader-wrong-collator", f"batch of dataset {src} collated by {name}")
+        # which config a batch belongs to is read off the reference (two configs may draw from one dataset object, each with its own collator)
+        if k < len(exp_batches) and name != "collator_%d" % exp_batches[k][0][0]:
+            raise Violation("loader-wrong-collator", f"batch {k} belongs to concat part {exp_batches[k][0][0]} but was collated by {name}")
+    exp_batches = [[(tags[s_], i_) for s_, i_ in b] for b in exp_batches]
     got_b = [[tuple(s) for s in b[1]] for b in got]
     if spec["main_kind"] != "kd_random" and got_b != exp_batches:
         k = next((k for k in range(min(len(got_b), len(exp_batches))) if got_b[k] != exp_batches[k]), -1)
